@@ -45,4 +45,17 @@ PROPS = {
         assumptions=["z3 sound", "PyVC encoding (DESIGN 2.2)", "STORE and the FETCH tail update flags in one atomic asyncio segment (no await inside the update loops)"],
         not_decided="(b) stale resolution, (c) COPY/MOVE steps, (d) deadlock freedom, (e) linearizability",
     ),
+    "C05": dict(
+        design_ref="DESIGN.md 7 C05",
+        technique="contract-based deductive verification (PyVC + z3) of Mailbox.expunge with inductive loop invariants (all three cases); real-folder oracle and end-to-end UID EXPUNGE witness as bounded cross-check",
+        category="other",
+        text="Mailbox.expunge is proved, for all mailbox contents, Deleted sets and UID lists, to remove exactly the messages the property names (EXPUNGE: the \\Deleted ones; UID EXPUNGE: those also in the UID set, "
+             "an empty set removing nothing; MOVE's forced expunge: exactly the listed UIDs), keeping order, every surviving key/UID pair, next_uid and uid_vv, rebuilding the index maps, "
+             "removing the deleted keys from every sequence and deleting exactly those files (ghost disk set). The repaired defect (UID EXPUNGE used sequence numbers as UIDs) is listed as fixed.",
+        note="Partial: copy/append/do_move/do_close/do_store EXAMINE frame and 'refused commands change nothing' are not yet under contract. Assumed contracts: MH.aremove (A-MH), "
+             "_dispatch_or_pend_notifications and commit_to_db change no list/sequence state; exclusivity of the running EXPUNGE across its awaits (C10 admission) is assumed, not re-proved here.",
+        assumptions=["z3 sound", "PyVC encoding (DESIGN 2.2)", "A-MH: MH.remove deletes exactly one message file", "writer exclusivity across awaits inside expunge (other tasks do not touch the mailbox while a CONFLICTING command runs)",
+                     "Mailbox invariant Inv.1-5 at entry (DESIGN 6.2)"],
+        not_decided="COPY/MOVE/APPEND additions, EXAMINE frame, refused-command frame",
+    ),
 }
